@@ -10,5 +10,4 @@ INVARIANT SeesTheCommand
 PROPERTY NoDeliveryWhileStopped
 PROPERTY TimerCountsDown
 PROPERTY OnlyCommandsAndTimeChangeTheDevice
-PROPERTY SwitchesOffEventually
 CHECK_DEADLOCK FALSE
